@@ -93,7 +93,7 @@ def gen(rng, tier, i):
         who = rng.choice(('me', 'b')); st['catch'] += 1; st['leaf'] += 1
         kindb = rng.choice(('err', 'typeerr', 'throw'))
         # (other actions removed or objects destructed before: the driver's pool of free sentences is not empty then)
-        pre = rng.choice(('rmy,', 'rmy,', 'rmx,rmy,', 'dest c,rmy,', 'move b me,' if who == 'b' else 'rmx,rmy,'))
+        pre = rng.choice(('rmy,', 'rmy,', 'rmx,rmy,', 'dest c,rmy,', 'move b me,' if who == 'b' else 'rmx,rmy,', 'rmx,dest %s,' % who))     # (the last: the verb function destructs the living it runs for)
         inner = 'cmd do bomb %d %s' % (st['leaf'], kindb) if (who == 'me' and ('rmx' in pre or rng.random() < 0.3)) else 'cmd x'
         cmd('sc %s y %scatch %d %s%s' % (who, pre, st['catch'], inner, rng.choice(('', ',rec after%d' % st['leaf']))))
         cmd('sc %s x bomb %d %s' % (who, st['leaf'], kindb))
